@@ -23,14 +23,14 @@ import (
 func init() {
 	core.Register(&core.Check{
 		ID:     "C46",
-		Rule:   "cases: the twelve historical generations of the legacy test schema (6 x proto2, 6 x proto3; github.com/golang/protobuf-era generated code wrapped by the runtime) and five hand-written struct-tag-only message types, one with three oneofs interleaved with plain fields (every tag form: varint/zigzag32/zigzag64/fixed32/fixed64/bytes/group, opt/req/rep, packed, def=, enum=, oneof=, protobuf_key/protobuf_val maps, proto3): one logical content (PRNG, keyed by field number) is placed into every generation through protoreflect and through the exported Go struct fields (reflect, by protobuf tag, incl. oneof wrapper structs); oracle: identical deterministic bytes across generations and routes and equal to dynamicpb of the derived descriptor, equal reflection snapshot, JSON and text vs the dynamicpb twin, every generation decodes every other's bytes to the same content, struct fields read back through reflect agree with protoreflect Get, derived message descriptors of all generations agree accessor by accessor (generation names masked, oneof indices and membership included); the descriptor derived from the three-oneof struct equals a hand-written schema line by line, and wire, JSON and text written by a dynamicpb message of that hand-written schema (contents setting several oneofs at once) are read by the struct-tag-only type to the same content and back; distinct = distinct (type, content bytes); non-trivial = at least one populated field",
+		Rule:   "cases: the twelve historical generations of the legacy test schema (6 x proto2, 6 x proto3; github.com/golang/protobuf-era generated code wrapped by the runtime) and five hand-written struct-tag-only message types, one with three oneofs interleaved with plain fields (every tag form: varint/zigzag32/zigzag64/fixed32/fixed64/bytes/group, opt/req/rep, packed, def=, enum=, oneof=, protobuf_key/protobuf_val maps, proto3): one logical content (PRNG, keyed by field number) is placed into every generation through protoreflect and through the exported Go struct fields (reflect, by protobuf tag, incl. oneof wrapper structs); oracle: identical deterministic bytes across generations and routes and equal to dynamicpb of the derived descriptor, equal reflection snapshot, JSON and text vs the dynamicpb twin, every generation decodes every other's bytes to the same content, struct fields read back through reflect agree with protoreflect Get, derived message descriptors of all generations agree accessor by accessor (generation names masked, oneof indices and membership included); two legacy enum types known through EnumDescriptor() only (gzipped descriptor + declaration path of length three and four, behind sibling messages that declare enums of the same name) must resolve to the enum their path names and exchange text and JSON with the hand-written schema; the descriptor derived from the three-oneof struct equals a hand-written schema line by line, and wire, JSON and text written by a dynamicpb message of that hand-written schema (contents setting several oneofs at once) are read by the struct-tag-only type to the same content and back; distinct = distinct (type, content bytes); non-trivial = at least one populated field",
 		Assume: []string{"dynamicpb of the derived descriptor as the reference implementation", "reflect-based struct-field driver shared with C29"},
 		Batches: func(tier string) []core.Batch {
 			bs := stdBatches([]string{"base"}, 6)
 			return append(bs, core.Batch{Cfg: "base", Name: "tagonly", Kind: "tagonly"}, core.Batch{Cfg: "legacy", Name: "tagonly-legacy", Kind: "tagonly"})
 		},
 		Gates: func(tier string) map[string]int64 {
-			return map[string]int64{"generations": 12, "families": 10, "contents": 150, "built_via_reflection": 900, "built_via_struct_fields": 900, "struct_fields_set": 20000, "cross_generation_decodes": 6000, "dynamic_twin_compares": 1500, "struct_reads": 20000, "descriptor_compares": 50, "tagonly_contents": 500, "tagonly_types": 4, "independent_descriptor_compares": 1, "independent_contents_with_two_oneofs_set": 100, "independent_decodes:wire": 120, "independent_decodes:json": 120, "independent_decodes:text": 120, "independent_contents_missing_required": 50}
+			return map[string]int64{"generations": 12, "families": 10, "contents": 150, "built_via_reflection": 900, "built_via_struct_fields": 900, "struct_fields_set": 20000, "cross_generation_decodes": 6000, "dynamic_twin_compares": 1500, "struct_reads": 20000, "descriptor_compares": 50, "tagonly_contents": 500, "tagonly_types": 4, "independent_descriptor_compares": 1, "independent_contents_with_two_oneofs_set": 100, "independent_decodes:wire": 120, "independent_decodes:json": 120, "independent_decodes:text": 120, "independent_contents_missing_required": 50, "deep_enum_descriptor_compares": 3, "deep_enum_contents": 27}
 		},
 		Run: runC46,
 	})
@@ -644,6 +644,7 @@ func c46Independent(c *core.Ctx, mt protoreflect.MessageType) {
 }
 
 func c46TagOnly(c *core.Ctx) {
+	c46DeepEnums(c)
 	types := []any{&TagInner{}, &TagOnly2{}, &TagOnly3{}, &TagOnly2{}, &TagOnly4{}}
 	seen := map[string]bool{}
 	for ti, zero := range types {
